@@ -116,6 +116,9 @@ func (P *Program) LoadContracts() error {
 			P.files = append(P.files, cf)
 			for _, c := range cf.Funcs {
 				key := path + "." + normTarget(c.Target)
+				if c.View != "" {
+					key += "#view:" + c.View
+				}
 				if c.Extern {
 					key = strings.ReplaceAll(c.Target, " ", "")
 				}
@@ -186,6 +189,34 @@ func (P *Program) LoadContracts() error {
 			for _, im := range cf.Impls {
 				P.impls = append(P.impls, [3]string{path, im[0], im[1]})
 			}
+		}
+	}
+	// views: an extra proof of the same body. A view has no preconditions of its own (callers are checked against the main
+	// contract only): it inherits the main contract's requires / assumes, untagged, and may add `assumes` of its own.
+	var vkeys []string
+	for k, c := range P.contracts {
+		if c.View != "" {
+			vkeys = append(vkeys, k)
+		}
+	}
+	sort.Strings(vkeys)
+	for _, k := range vkeys {
+		v := P.contracts[k]
+		main := P.contracts[strings.TrimSuffix(k, "#view:"+v.View)]
+		if main == nil {
+			return fmt.Errorf("%s:%d: view %s of %s without a main contract", v.File, v.Line, v.View, v.Target)
+		}
+		if len(v.Requires) > 0 || v.Trusted {
+			return fmt.Errorf("%s:%d: a view may not state requires clauses (it inherits the main contract's) nor be assumed", v.File, v.Line)
+		}
+		for _, r := range main.Requires {
+			v.Requires = append(v.Requires, Clause{Expr: r.Expr, Src: r.Src})
+		}
+		for _, a := range main.Assumes {
+			v.Assumes = append(v.Assumes, a)
+		}
+		if v.OpaqueArith == false {
+			v.OpaqueArith = main.OpaqueArith
 		}
 	}
 	return nil
